@@ -22,6 +22,7 @@ import (
 	"net"
 	"strconv"
 	"strings"
+	"sync"
 
 	"github.com/cybergarage/go-logger/log"
 	"github.com/cybergarage/go-redis/redis/auth"
@@ -43,6 +44,7 @@ type Server struct {
 	systemCommandHandler SystemCommandHandler
 	userCommandHandler   UserCommandHandler
 	commandExecutors     Executors
+	commandMutex         sync.Mutex
 }
 
 // NewServer returns a new server instance.
@@ -60,6 +62,7 @@ func NewServer() *Server {
 		systemCommandHandler: nil,
 		userCommandHandler:   nil,
 		commandExecutors:     Executors{},
+		commandMutex:         sync.Mutex{},
 	}
 	server.SetPort(DefaultPort)
 	server.registerCoreExecutors()
@@ -301,7 +304,7 @@ func (server *Server) receive(conn net.Conn, tlsState *tls.ConnectionState) erro
 		var resMsg *Message
 		var reqErr error
 
-		resMsg, reqErr = server.handleMessage(handlerConn, reqMsg)
+		resMsg, reqErr = server.handleMessageSerially(handlerConn, reqMsg)
 		if reqErr != nil {
 			if !errors.Is(reqErr, ErrQuit) {
 				resMsg = NewErrorMessage(reqErr)
@@ -322,6 +325,13 @@ func (server *Server) receive(conn net.Conn, tlsState *tls.ConnectionState) erro
 	}
 
 	return nil
+}
+
+// handleMessageSerially handles a client message exclusively, commands are executed one at a time.
+func (server *Server) handleMessageSerially(conn *Conn, msg *proto.Message) (*Message, error) {
+	server.commandMutex.Lock()
+	defer server.commandMutex.Unlock()
+	return server.handleMessage(conn, msg)
 }
 
 // handleMessage handles a client message.
